@@ -1336,6 +1336,12 @@ class Executor(Generic[TContext]):
                     append_awaitable(index)
 
                 index += 1
+        except CancelledError:
+            # close the async iterator also when the execution is cancelled
+            if early_return is not None:
+                with suppress_exceptions:
+                    await early_return()
+            raise
         except Exception:
             if early_return is not None:  # pragma: no branch
                 with suppress_exceptions:
